@@ -16,6 +16,7 @@ package main
 //                   `Spec.mathValue` (column "model" of this op), same answers as `l`
 //   rt k <codes>    the text parsed as one whole text, canonical form of the single expression
 //                   (char/string literal spellings written by hand, not by the printer)
+//   rt H <mode> <step>…   HISTORY: several spellings / print-read round trips on ONE long-lived reader (ch_rt_hist.go)
 //
 // Value syntax (prefix, one token each): n | t | f | i <int> | u <uint> | d <hexbits> <ftext> |
 //   e <hexbits> <etext> | c <int> | s <bytes> | r <bytes> | y <bytes> | l <n> v… | p <n> v… tail |
@@ -300,6 +301,9 @@ func rtExec(toks []string) (ans string) {
 	rtSetup()
 	if len(toks) < 2 {
 		return "bad-op"
+	}
+	if toks[0] == "H" {
+		return rtHistExec(toks) // history ops: ch_rt_hist.go
 	}
 	switch toks[0] {
 	case "l", "j", "k":
